@@ -73,6 +73,11 @@ Definition check (c : case) : bool :=
                                                ed_suite_idx := ce_suite_idx e; ed_enc := cut data (ce_enc e);
                                                ed_plen_idx := ce_plen_idx e; ed_payload := cut data (ce_payload e) |}) echs |} in
         is_perm (length (sp_exts sp0)) perm &&
+        (* the premise of C03_generic_exts holds on this connection *)
+        match apply_preset sp {| c_sni := sni; c_omit_psk := omit |} fr with
+        | Ok he => negb ok || forallb wf_ext (snd he)
+        | _ => true
+        end &&
         match build sp {| c_sni := sni; c_omit_psk := omit |} fr with
         | Ok b => ok && bytes_eqb b data
         | Err _ => negb ok
